@@ -149,6 +149,24 @@ fixed("C15", "C15:join", "a7e388d",
       "sep.join(a FmtStr) ended with a trailing separator (same root cause: the FmtStr iterated to one extra empty item)",
       [{"method": "join", "sep": [[",", RED]], "items": [[["ab", BLUE], ["c", {}]]], "iterable": "fmtstr"}])
 
+fixed("C08", "C08:falsy-event-dropped", "dada86b",
+      "an event that is falsy (an Event subclass with __len__ == 0) handed to a blocked request by a threadsafe trigger "
+      "was discarded by 'if event:' and the request returned None early",
+      [json.load(open(os.path.join(os.path.dirname(os.path.abspath(__file__)), "known_witnesses", "C08-falsy-event.json")))])
+
+fixed("C08", "C08:paste-behind-buffered-keys", "e96e5f3",
+      "a burst larger than the paste threshold that arrived while 1-6 already-read keypresses were buffered came back "
+      "as single keypresses (the up-front refill introduced by d1ecc9e swallowed it)",
+      [{"kind": "buffered", "paste_threshold": 8, "how": "unget", "pre": B(b"QW".hex()), "burst": B((b"hello world, " * 5).hex())},
+       {"kind": "buffered", "paste_threshold": 8, "how": "typed", "pre": B(b"abc".hex()), "burst": B((b"hello world, " * 5).hex())}])
+fixed("C08", "C08:keypress-split-across-arrivals", "eb7b570",
+      "a multi-byte character / escape sequence whose bytes arrive in two writes with a request in between: "
+      "ValueError, the bytes (and the paste being built) dropped",
+      [{"kind": "split", "paste_threshold": 1, "pre": B(b"g".hex() + "e282ac"), "unit": B("f0908d88"), "cuts": [2],
+        "post": B(""), "between": [0.002, 0], "during_blocked": False},
+       {"kind": "split", "paste_threshold": None, "pre": B(""), "unit": B(b"\x1b[1;5C".hex()), "cuts": [3],
+        "post": B(b"z".hex()), "between": [0], "during_blocked": True}])
+
 known("C03", "C03:prefix-then-undecodable-byte",
       "get_key raises UnicodeDecodeError for a table-sequence prefix (e.g. ESC) followed by a byte >= 0x80 "
       "that does not decode: ESC + any 8-bit byte under ascii, ESC + a UTF-8 lead/continuation byte under utf-8",
